@@ -117,4 +117,41 @@ def verdict {X : Type} [DecidableEq X] (valid : Bytes → Bool) (i : Inputs X) (
       | none => "ok"
       | some x => "fail:context field " ++ x.1 ++ " differs from what was supplied"
 
+/-! ## The documents as raw file-system state
+
+"… the buildpack plan entries with their metadata, the parsed buildpack descriptor with its metadata, and the previous store if
+present. … a missing … store.toml [is] tolerated; a value that cannot be represented is a reported error, never silently dropped
+or altered." A document that is *there* but cannot be turned into its value — its bytes are not a `String`, they are not TOML of
+the document's shape, the thing at the path cannot be read as a file at all — is such a value: the only acceptable outcome is a
+reported error. Nothing at the path is tolerated for `store.toml` alone (then there is no previous store); a phase cannot run
+without its descriptor or, in build, its plan. Detect reads neither plan nor store. (`Doc`, `Docs` are plain data shared with the
+model; `Doc.readError` is not used.) -/
+
+/-- the document cannot be turned into its value -/
+def docBad (tolerateMissing : Bool) : Doc → Bool
+  | .asGiven => false
+  | .missing => !tolerateMissing
+  | .unreadable => true
+  | .undecodable _ => true
+
+/-- the first document of the phase that cannot be turned into its value -/
+def badDoc (build : Bool) (d : Docs) : Option String :=
+  if docBad false d.desc then some "buildpack.toml"
+  else if build && docBad false d.plan then some "the buildpack plan"
+  else if build && docBad true d.store then some "store.toml"
+  else none
+
+/-- what the platform supplied once the raw states are taken into account: a `store.toml` that is not there is no previous store -/
+def effective {X : Type} (build : Bool) (i : Inputs X) : Inputs X :=
+  if build && i.docs.store == .missing then { i with store := none } else i
+
+def verdictDocs {X : Type} [DecidableEq X] (valid : Bytes → Bool) (build : Bool) (i : Inputs X) (s : Seen X) : String :=
+  match badDoc build i.docs with
+  | some which =>
+    (match s with
+     | .error => "ok"
+     | .context _ => "fail:" ++ which ++ " is present but cannot be read or represented (not valid UTF-8, not decodable, not a file) and no error was reported (document silently dropped)"
+     | .other w => "fail:neither a context nor a reported error: " ++ w)
+  | none => verdict valid (effective build i) s
+
 end CnbVerif.Platform.Spec
